@@ -92,11 +92,12 @@ type tcase struct {
 	gas   uint64
 	kind  string // program kind
 	feats map[string]bool
+	idx   int
 }
 
 func (c *tcase) witness() map[string]any {
 	return map[string]any{"ruleset": c.rs, "entry": entryNames[c.entry], "code": vrt.Hex(c.code), "input": vrt.Hex(c.input),
-		"value": c.value, "gas": c.gas, "kind": c.kind, "prestate_root": c.world.Root().Hex()}
+		"value": c.value, "gas": c.gas, "kind": c.kind, "prestate_root": c.world.Root().Hex(), "case_index": c.idx}
 }
 
 // exec runs the case once on a fresh state, traced (mon != nil) or untraced.
@@ -134,7 +135,7 @@ func genCase(r *vrt.Run, rng *rand.Rand, i int, worlds map[string][]*evmenv.Worl
 	rs := evmenv.RuleSets[i%len(evmenv.RuleSets)]
 	w := worlds[rs][rng.Intn(worldsPerRuleSet)]
 	f := w.Fork
-	c := &tcase{rs: rs, world: w}
+	c := &tcase{rs: rs, world: w, idx: i}
 	var addrs []common.Address
 	for _, a := range w.Accounts {
 		if a.Addr != target {
